@@ -443,7 +443,9 @@ Qed.
 Lemma open_io_stopped w a b : pre_stopped (open_io w a b).
 Proof.
   unfold open_io. destruct (same_path a b); [apply inl_stopped; stopped_status|].
-  unfold resolve_input. destruct a as [p|]; [apply opt_or_stopped; stopped_status|apply inr_stopped].
+  apply pbind_stopped; [|intros x; apply inr_stopped].
+  unfold open_input. destruct a as [p|]; [|apply inr_stopped].
+  destruct (resolve (fs w) p) as [[cp [[c|]|]]|]; first [apply inr_stopped | apply inl_stopped; stopped_status].
 Qed.
 
 Lemma ask_pass_stopped w b : pre_stopped (ask_pass w b).
@@ -506,12 +508,21 @@ Theorem cmd_encrypt_draws g w o res g' :
     (is_success (status res) = true \/ (exists e, status res = SEncryptFailed e) ->
      k = length (op_roles OpKeyEncrypt)).
 Proof.
-  unfold cmd_encrypt_r, cmd_encrypt, stream_cmd, run_enc. intros H.
+  unfold cmd_encrypt_r, cmd_encrypt, stream_cmd. intros H.
   destruct (encrypt_plan pk_ok sk_ok unlock decode_pk utf8_decode w o) as [st|j] eqn:Ep.
   - injection H as <- <-. split; [reflexivity|]. exists 0. split; [apply drew_none|].
     destruct (encrypt_plan_stopped w o st Ep) as (Hns & Hne). cbn [fail_result mk_result status].
     intros [Hs|(e & He)]; [congruence|exfalso; exact (Hne e He)].
-  - destruct (key_encrypt_r P g (ej_s j) (ej_spk j) (ej_r j) None None None (io0 (ej_input j))) as [r g1] eqn:Ek.
+  - set (b1 := g_stream g (g_next g)) in *. set (b2 := g_stream g (S (g_next g))) in *.
+    assert (Hf : forall inp, fst (lib_enc_r P g j inp) = lib_enc P b1 b2 j inp).
+    { intros inp. unfold lib_enc_r, lib_enc.
+      destruct (key_encrypt_r P g (ej_s j) (ej_spk j) (ej_r j) None None None (job_io inp (ej_dir j) (ej_bad j))) as [r0 g0] eqn:Ek0.
+      now destruct (key_encrypt_draws P _ _ _ _ _ _ _ Ek0) as (He0 & _). }
+    assert (Hfed : alias_fed (ej_alias j) (ej_input j) (fun inp => fst (lib_enc_r P g j inp)) = enc_fed P b1 b2 j).
+    { unfold enc_fed, alias_fed. now rewrite Hf. }
+    rewrite Hfed in H. unfold lib_enc_r in H.
+    destruct (key_encrypt_r P g (ej_s j) (ej_spk j) (ej_r j) None None None
+                (job_io (enc_fed P b1 b2 j) (ej_dir j) (ej_bad j))) as [r g1] eqn:Ek.
     injection H as <- <-.
     destruct (key_encrypt_draws P _ _ _ _ _ _ _ Ek) as (He & k & Hd & Hk).
     split; [rewrite He; reflexivity|]. exists k. split; [exact Hd|].
